@@ -23,8 +23,8 @@ RULE = ("enumeration of (element type, n, strategy, rhs shape, argument form, fa
 ASSUMPTIONS = [
     "c = 8; u = 2^-24 / 2^-53; kappa_2, leading-block kappa_2 and LU growth measured in long double on the entries as stored in T",
     "domain decided a posteriori: leading blocks of A (unpivoted) or P*A (pivoted, P = pivot<PivType::V>(A)) with kappa_2 <= 1.1e3 (f32) / 1.1e6 (f64)",
-    "SimpleInv / SimpleInvPiv solve through the explicit block-recursive inverse, which is only conditionally stable: judged with the measured max leading-block "
-    "kappa_2 in the bound (la::LEAD_KAPPA_IN_BOUND, see C10); exceedances of the bound without it are counted (strict_bound_exceedances)",
+    "SimpleInv / SimpleInvPiv solve through the explicit block-recursive inverse (n > 4), which is only conditionally stable: their domain threshold on the "
+    "leading-block kappa_2 is 5e2 (see C10); members between 5e2 and the general threshold are counted with their would-pass / would-fail tally, not judged",
     "SolveCompType::QR and SolveCompType::Chol have no implementation in the pinned tree (self-recursive generic overload): recorded, not judged",
     "forward_subs / backward_subs live in Fastor::internal; they are called directly because the property names them",
 ]
@@ -39,7 +39,7 @@ def configs(tier):
     return [Config(isa=i) for i in ALL_ISAS]
 
 
-def shapes(tier, n, W):
+def shapes(tier, n, W, t="f64"):
     """right-hand-side column counts; 0 = vector"""
     full = [0] + list(range(1, min(n, 6) + 1)) + [W, W + 1]
     if tier == "quick":
@@ -52,14 +52,16 @@ def shapes(tier, n, W):
         else:
             ks = [0]
     else:
-        if n <= 6:
+        if n <= 5:
             ks = full
+        elif n <= 9:
+            ks = [0, 1, 2, 6, W + 1]
         elif n <= 12:
-            ks = [0, 1, 2, 6, W, W + 1]
+            ks = [0, 2]
         elif n <= 17:
             ks = [0, 2, W + 1]
         elif n <= 33:
-            ks = [0, 2]
+            ks = [0, 2] if t == "f64" else [0]
         else:
             ks = [0]
     out = []
@@ -102,7 +104,7 @@ def cases(tier, cfg):
         W = cfg.w(t)
         for si, strat in enumerate(STRATS):
             for n in sizes(tier, cfg, strat, t):
-                for k in shapes(tier, n, W):
+                for k in shapes(tier, n, W, t):
                     cost = min(inv_cost(n, strat, cfg.isa) * (1.1 if k else 1.0) + 0.05, TU_BUDGET - 1.5)
                     dst = big if cost >= 5 else small
                     for gi, g in enumerate(groups_for(strat, t, n)):
@@ -111,7 +113,7 @@ def cases(tier, cfg):
                                         route=f"solve.{strat}.{'vec' if k == 0 else 'mat'}", cost=cost if gi == 0 else 0.25))
         # expression arguments and solve inside a compound expression
         for si, strat in ((0, "SimpleInv"), (3, "BlockLUPiv")) + (((4, "SimpleLU"), (1, "SimpleInvPiv")) if tier == "thorough" else ()):
-            for n in ((2, 3, 5, 9) if tier == "quick" else (1, 2, 3, 4, 5, 8, 9, 17)):
+            for n in ((2, 3, 5, 9) if tier == "quick" else ((1, 2, 3, 4, 5, 8, 9, 17) if si == 0 else (2, 3, 5, 9))):
                 for k in (0, 2):
                     for fname, fi in FORMS.items():
                         if fi == 0 or (tier == "quick" and t == "f32" and fi in (1, 2)):
@@ -156,6 +158,6 @@ def bounds(tier):
                  "(pivoted); two right-hand sides per member; expression forms (A+0, b+0, both, x += solve(A*1,b+0)) n in {2,3,5,9} for SimpleInv and BlockLUPiv; "
                  "forward_subs, forward_subs with every generating permutation, backward_subs n in 1..9,16,17, rhs {v,2,W+1}; S2, A2, A5",
         "thorough": "n in 1..12,16,17,32,33 (64,65: SimpleInv, SimpleInvPiv f64 vector rhs on S2/A2/A5) x six SolveCompType x {f64,f32}; rhs: all of v,1..min(n,6),W,W+1 for "
-                    "n<=6, {v,1,2,6,W,W+1} for 7..12, {v,2,W+1} for 16,17, {v,2} for 32,33 (shrunk from 'every shape at every size': compile cost); expression forms "
-                    "n in {1..5,8,9,17} for four strategies; substitution helpers n in 1..12,16,17,32,33; six ISAs",
+                    "n<=5, {v,1,2,6,W+1} for 6..9, {v,2} for 10..12, {v,2,W+1} for 16,17, {v,2} f64 / {v} f32 for 32,33 (shrunk from 'every shape at every size': "
+                    "compile cost); expression forms n in {1..5,8,9,17} for SimpleInv, {2,3,5,9} for BlockLUPiv, SimpleLU, SimpleInvPiv; substitution helpers n in 1..12,16,17,32,33; six ISAs",
     }[tier]
